@@ -46,7 +46,8 @@ func instrumentCImpl(fset *token.FileSet, f *ast.File, rel string) error {
 	if ci.err != nil {
 		return ci.err
 	}
-	rewriteRecvInExpr(f)
+	rewriteRecvInit(f, "vsched")
+	rewriteRecvInExpr(f, "vsched")
 	// context.AfterFunc starts a goroutine inside the standard library: route it to the scheduler
 	ast.Inspect(f, func(n ast.Node) bool {
 		if se, ok := n.(*ast.SelectorExpr); ok && se.Sel.Name == "AfterFunc" {
@@ -623,7 +624,7 @@ func (ci *cinst) verify(f *ast.File) error {
 // rewriteRecvInExpr turns a channel receive that is an operand of a larger expression (append(x, <-ch...), f(<-ch),
 // a + <-ch, return <-ch) into vsched.Recv(ch). Receives that are the communication of a select case, and the statement
 // forms handled by list(), are left alone.
-func rewriteRecvInExpr(f *ast.File) {
+func rewriteRecvInExpr(f *ast.File, pkg string) (changed bool) {
 	comm := map[ast.Node]bool{}
 	ast.Inspect(f, func(n ast.Node) bool {
 		if cc, ok := n.(*ast.CommClause); ok && cc.Comm != nil {
@@ -645,7 +646,8 @@ func rewriteRecvInExpr(f *ast.File) {
 		}
 		if u, ok := (*e).(*ast.UnaryExpr); ok && u.Op == token.ARROW && !comm[u] {
 			fix(&u.X)
-			*e = &ast.CallExpr{Fun: &ast.SelectorExpr{X: ast.NewIdent("vsched"), Sel: ast.NewIdent("Recv")}, Args: []ast.Expr{u.X}}
+			*e = &ast.CallExpr{Fun: &ast.SelectorExpr{X: ast.NewIdent(pkg), Sel: ast.NewIdent("Recv")}, Args: []ast.Expr{u.X}}
+			changed = true
 			return
 		}
 		switch x := (*e).(type) {
@@ -735,4 +737,47 @@ func rewriteRecvInExpr(f *ast.File) {
 		}
 		return true
 	})
+	return changed
+}
+
+// rewriteRecvInit handles receives in the init / post statements of if, for and switch (`if v, ok := <-ch; ok {`), which
+// are not statements of a block: pkg.Recv / pkg.Recv2 like the statement forms. Reports whether anything was rewritten.
+func rewriteRecvInit(f *ast.File, pkg string) (changed bool) {
+	one := func(st ast.Stmt) {
+		var e *ast.Expr
+		fn := "Recv"
+		switch x := st.(type) {
+		case *ast.ExprStmt:
+			e = &x.X
+		case *ast.AssignStmt:
+			if len(x.Rhs) == 1 {
+				e = &x.Rhs[0]
+				if len(x.Lhs) == 2 {
+					fn = "Recv2"
+				}
+			}
+		}
+		if e == nil {
+			return
+		}
+		if u, ok := (*e).(*ast.UnaryExpr); ok && u.Op == token.ARROW {
+			*e = &ast.CallExpr{Fun: &ast.SelectorExpr{X: ast.NewIdent(pkg), Sel: ast.NewIdent(fn)}, Args: []ast.Expr{u.X}}
+			changed = true
+		}
+	}
+	ast.Inspect(f, func(n ast.Node) bool {
+		switch x := n.(type) {
+		case *ast.IfStmt:
+			one(x.Init)
+		case *ast.ForStmt:
+			one(x.Init)
+			one(x.Post)
+		case *ast.SwitchStmt:
+			one(x.Init)
+		case *ast.TypeSwitchStmt:
+			one(x.Init)
+		}
+		return true
+	})
+	return changed
 }
